@@ -180,24 +180,25 @@ structure Same (d d' : Dec) : Prop where
   del : d.delete = true → d'.delete = true
   ctxt : d'.ctxt = d.ctxt
   curEnd : d'.curEnd = d.curEnd
+  inCtxt : d'.inCtxt = d.inCtxt
 
-theorem Same.rfl' (d : Dec) : Same d d := ⟨rfl, rfl, rfl, id, rfl, rfl⟩
+theorem Same.rfl' (d : Dec) : Same d d := ⟨rfl, rfl, rfl, id, rfl, rfl, rfl⟩
 theorem Same.tr {a b c : Dec} (h1 : Same a b) (h2 : Same b c) : Same a c :=
-  ⟨h2.oi.trans h1.oi, h2.ol.trans h1.ol, h2.instrs.trans h1.instrs, fun h => h2.del (h1.del h), h2.ctxt.trans h1.ctxt, h2.curEnd.trans h1.curEnd⟩
-theorem bumpRef_same (d : Dec) (x : Int) : Same d (bumpRef d x) := by unfold bumpRef; split <;> exact ⟨rfl, rfl, rfl, id, rfl, rfl⟩
+  ⟨h2.oi.trans h1.oi, h2.ol.trans h1.ol, h2.instrs.trans h1.instrs, fun h => h2.del (h1.del h), h2.ctxt.trans h1.ctxt, h2.curEnd.trans h1.curEnd, h2.inCtxt.trans h1.inCtxt⟩
+theorem bumpRef_same (d : Dec) (x : Int) : Same d (bumpRef d x) := by unfold bumpRef; split <;> exact ⟨rfl, rfl, rfl, id, rfl, rfl, rfl⟩
 theorem setRef_same (d : Dec) (i : Int) : Same d (setRef d i) := by
   unfold setRef bumpRef; simp only []; split
-  · split <;> exact ⟨rfl, rfl, rfl, id, rfl, rfl⟩
+  · split <;> exact ⟨rfl, rfl, rfl, id, rfl, rfl, rfl⟩
   · exact Same.rfl' d
 theorem setChanged_same (d : Dec) (i : Int) : Same d (setChanged d i) := by
   unfold setChanged bumpRef; simp only []; split
-  · split <;> exact ⟨rfl, rfl, rfl, id, rfl, rfl⟩
+  · split <;> exact ⟨rfl, rfl, rfl, id, rfl, rfl, rfl⟩
   · exact Same.rfl' d
 theorem setNoref_same (d : Dec) (i : Int) : Same d (setNoref d i) := by
   unfold setNoref; simp only []; split
   · exact bumpRef_same _ _
   · exact Same.rfl' d
-theorem modify_same (d : Dec) : Same d { d with modify := true } := ⟨rfl, rfl, rfl, id, rfl, rfl⟩
+theorem modify_same (d : Dec) : Same d { d with modify := true } := ⟨rfl, rfl, rfl, id, rfl, rfl, rfl⟩
 
 theorem analyse_same (d : Dec) (opc : Nat) (ps : List Nat) {d' : Dec} (h : analyse d opc ps = .ok d') :
     Same d d' ∧ (opc = 32 → d'.delete = true) := by
@@ -205,7 +206,7 @@ theorem analyse_same (d : Dec) (opc : Nat) (ps : List Nat) {d' : Dec} (h : analy
   simp only [bind, Except.bind, pure, Except.pure] at h
   by_cases h0 : opc = 32
   · rw [if_pos h0] at h; injection h with h; subst h
-    exact ⟨⟨rfl, rfl, rfl, fun _ => rfl, rfl, rfl⟩, fun _ => rfl⟩
+    exact ⟨⟨rfl, rfl, rfl, fun _ => rfl, rfl, rfl, rfl⟩, fun _ => rfl⟩
   rw [if_neg h0] at h
   refine ⟨?_, fun ho => absurd ho h0⟩
   by_cases h1 : opc = 33
@@ -220,11 +221,11 @@ theorem analyse_same (d : Dec) (opc : Nat) (ps : List Nat) {d' : Dec} (h : analy
   by_cases h4 : opc = 25 ∨ opc = 27
   · rw [if_pos h4] at h
     split at h
-    · injection h with h; subst h; exact ⟨rfl, rfl, rfl, id, rfl, rfl⟩
+    · injection h with h; subst h; exact ⟨rfl, rfl, rfl, id, rfl, rfl, rfl⟩
     · cases h
   rw [if_neg h4] at h
   by_cases h5 : opc = 31
-  · rw [if_pos h5] at h; injection h with h; subst h; exact ⟨rfl, rfl, rfl, id, rfl, rfl⟩
+  · rw [if_pos h5] at h; injection h with h; subst h; exact ⟨rfl, rfl, rfl, id, rfl, rfl, rfl⟩
   rw [if_neg h5] at h
   by_cases h6 : opc = 29 ∨ opc = 56
   · rw [if_pos h6] at h
@@ -710,8 +711,8 @@ theorem curRun_actionTemps (is : List Instr) (c : Cur) : curRun c (Action.insert
 /-- **What the loader accepts as a rule's action is `codeOK`** – the hypothesis of the null-cursor, slot-map and operand theorems
 (`Proofs/CursorShape.lean`), as the pipeline model states it: the bytes decode (`mkCode`), the decoded code passes the cursor tests from
 `(pre_context, rule_length)`, and it is flagged `deletes` whenever a `DELETE` was read. -/
-theorem accepted_action_is_codeOK (l : Limits) (pt : Nat) (bc : List Nat) (p : Loaded) (hrl : l.ruleLength < 65536)
-    (h : load l false pt bc = .ok (.ok (some p))) : Pass.codeOK ⟨l.preContext, l.ruleLength, false⟩ bc true = true := by
+theorem accepted_action_is_codeOK' (l : Limits) (pt : Nat) (bc : List Nat) (op : Option Loaded) (hrl : l.ruleLength < 65536)
+    (h : load l false pt bc = .ok (.ok op)) : Pass.codeOK ⟨l.preContext, l.ruleLength, false⟩ bc true = true := by
   unfold load at h
   simp only [bind, Except.bind, pure, Except.pure] at h
   cases hl : loop l false pt bc (2 * bc.length + 2) 0 { outIndex := if false = true then 0 else l.preContext, outLength := if false = true then 1 else l.ruleLength, curEnd := bc.length } with
@@ -742,5 +743,9 @@ theorem accepted_action_is_codeOK (l : Limits) (pt : Nat) (bc : List Nat) (p : L
           simp only []
           rw [analyse_fold_deletes d.instrs.reverse {} (.inr hex)]
           rfl
+
+theorem accepted_action_is_codeOK (l : Limits) (pt : Nat) (bc : List Nat) (p : Loaded) (hrl : l.ruleLength < 65536)
+    (h : load l false pt bc = .ok (.ok (some p))) : Pass.codeOK ⟨l.preContext, l.ruleLength, false⟩ bc true = true :=
+  accepted_action_is_codeOK' l pt bc (some p) hrl h
 
 end GrVerif.CodeLoad
